@@ -6,7 +6,10 @@ ID = 'C11'
 LEAN_MODULES = ['TboxModel.C11.Props']
 EXE = 'c11'
 THEOREMS = ['Tbox.C11.C11_gating', 'Tbox.C11.C11_hooks_of_tree', 'Tbox.C11.C11_balanced', 'Tbox.C11.C11_balanced_counts',
-            'Tbox.C11.C11_reverse', 'Tbox.C11.C11_reverse_closed', 'Tbox.C11.C11_reverse_explicit', 'Tbox.C11.C11_balanced_counterexample_unrepaired',
+            'Tbox.C11.C11_reverse', 'Tbox.C11.C11_reverse_closed', 'Tbox.C11.C11_reverse_explicit',
+            'Tbox.C11.C11_preorder', 'Tbox.C11.C11_preorder_in_sequence', 'Tbox.C11.C11_optional_isolated',
+            'Tbox.C11.C11_optional_isolated_root', 'Tbox.C11.C11_required_not_isolated',
+            'Tbox.C11.C11_main_is_history', 'Tbox.C11.C11_main_balanced', 'Tbox.C11.C11_main_counterexample_unrepaired', 'Tbox.C11.C11_balanced_counterexample_unrepaired',
             'Tbox.C11.C11_balanced_witness_repaired', 'Tbox.C11.C11_start_counterexample_unrepaired',
             'Tbox.C11.C11_destroy_only_remark']
 SOURCES = ['modules/main/module.cpp', 'modules/util/variables.cpp'] + vlib.BASE_SOURCES
@@ -137,34 +140,89 @@ def shapes(n):
     yield from rec(1, [-1], [0])
 
 
-EXH = {'trees': 0, 'combos': 0}
+EXH = {'trees': 0, 'combos': 0, 'lines': 0, 'chunks': 0, 'bad': []}
+EXH_SCOPES = [(1, 4, 4), (5, 5, 4)]   # (min modules, max modules, length of the call sequences)
+KINDS = [(1, 1), (0, 1), (1, 0)]      # ok / onInit fails / onStart fails
 
 
-def gen_exhaustive(min_nodes, max_nodes, seq_len):
-    kinds = [(1, 1), (0, 1), (1, 0)]          # ok / onInit fails / onStart fails
-    seqs = list(itertools.product(CALLS, repeat=seq_len))
-    for n in range(min_nodes, max_nodes + 1):
+def exh_skeletons(lo, hi):
+    for n in range(lo, hi + 1):
         for par in shapes(n):
             for reqs in itertools.product([1, 0], repeat=n - 1):
-                ops = ['new %d 1 1 1 1' % i for i in range(n)]
-                ops += ['add %d %d %d' % (par[k], k, reqs[k - 1]) for k in range(1, n)]
-                cur = [(1, 1)] * n
-                for assign in itertools.product(kinds, repeat=n):
-                    EXH['trees'] += 1
-                    for k in range(n):
-                        if cur[k] != assign[k]:
-                            ops.append('set %d 1 %d %d' % (k, assign[k][0], assign[k][1]))
-                    cur = list(assign)
-                    for s in seqs:
-                        EXH['combos'] += 1
-                        ops += ['%s 0' % c for c in s]
-                        ops.append('cleanup 0')     # back to the all-kNone tree (visible in st=)
-                ops.append('destroy 0')
-                yield ops
+                yield (n, par, reqs)
+
+
+def exh_ops(skel, seq_len):
+    """one case: the tree, then for every failure assignment every call sequence of that length, each followed by
+    cleanup (which brings the tree back to all-kNone: visible in st=)"""
+    n, par, reqs = skel
+    seqs = [['%s 0' % c for c in s] + ['cleanup 0'] for s in itertools.product(CALLS, repeat=seq_len)]
+    ops = ['quiet'] + ['new %d 1 1 1 1' % i for i in range(n)]
+    ops += ['add %d %d %d' % (par[k], k, reqs[k - 1]) for k in range(1, n)]
+    cur = [(1, 1)] * n
+    ntrees = 0
+    for assign in itertools.product(KINDS, repeat=n):
+        ntrees += 1
+        for k in range(n):
+            if cur[k] != assign[k]:
+                ops.append('set %d 1 %d %d' % (k, assign[k][0], assign[k][1]))
+        cur = list(assign)
+        for s in seqs:
+            ops += s
+    ops.append('destroy 0')
+    return ops, ntrees, ntrees * len(seqs)
+
+
+def run_exhaustive(scopes=None, workers=None):
+    """Runs the exhaustive small-scope enumeration in chunks (harness and Lean driver side by side, outputs compared
+    byte for byte; with `quiet` the driver prints no B lines). Fills EXH; EXH['bad'] = [(ops, impl_line, model_line)]."""
+    import os, threading
+    from concurrent.futures import ThreadPoolExecutor
+    EXH.update({'trees': 0, 'combos': 0, 'lines': 0, 'chunks': 0, 'bad': []})
+    exe, hlog = vlib.build_harness(ID, SOURCES, os.path.join(vlib.VERIF, 'props', ID, 'harness.cpp'), FLAVOUR)
+    if exe is None:
+        return                                           # standard_check reports the build failure
+    drv = os.path.join(vlib.LEAN, '.lake', 'build', 'bin', EXE)
+    lock = threading.Lock()
+    jobs = []
+    for (lo, hi, ln) in (scopes or EXH_SCOPES):
+        group, weight = [], 0
+        for sk in exh_skeletons(lo, hi):
+            group.append((sk, ln)); weight += (3 ** sk[0]) * (4 ** ln) * (ln + 1)
+            if weight > 1200000:
+                jobs.append(group); group, weight = [], 0
+        if group:
+            jobs.append(group)
+
+    def one(group):
+        cases, nt, nc = {}, 0, 0
+        for i, (sk, ln) in enumerate(group):
+            ops, t, c = exh_ops(sk, ln)
+            cases[i] = ops; nt += t; nc += c
+        text = ''.join(vlib.case_text(i, cases[i]) for i in sorted(cases))
+        rc1, so1, se1 = vlib.run_proc([exe], text, 900)
+        rc2, so2, se2 = vlib.run_proc([drv], text, 900)
+        bad = []
+        if rc1 != 0 or rc2 != 0 or so1 != so2:
+            impl, model = vlib.split_cases(so1), vlib.split_cases(so2)
+            for i in sorted(cases):
+                il = impl.get(i, ['<no output>'])
+                if rc1 != 0 and i == max(impl or {0: 0}):
+                    il = il + ['CRASH ' + vlib.classify_crash(rc1, se1)]
+                d = vlib.first_diff(il, model.get(i, ['<no model output>']))
+                if d:
+                    bad.append((cases[i][:d[0] + 1], d[1], d[2]))   # ops up to the first diverging answer (quiet answers too)
+                    break
+            if not bad and rc2 != 0:
+                bad.append((['<driver failed rc=%s>' % rc2], se2[-300:], 'runs'))
+        with lock:
+            EXH['trees'] += nt; EXH['combos'] += nc; EXH['lines'] += text.count('\n'); EXH['chunks'] += 1
+            EXH['bad'] += bad
+    with ThreadPoolExecutor(workers or max(2, min(12, vlib.NPROC - 2))) as ex:
+        list(ex.map(one, jobs))
 
 
 def gen(rng, tier):
-    EXH['trees'] = EXH['combos'] = 0
     n = 500 if tier == 'quick' else 6000
     # malformed stream: both sides must answer bad-op (unknown op, bad flag, unknown id, non-root call, cycle, duplicate id)
     yield ['new 0 1 1 1 1', 'new 0 1 1 1 1', 'new 1 2 1 1 1', 'new x 1 1 1 1', 'add 0 0 1', 'new 1 1 1 1 1', 'add 0 1 1', 'add 1 0 1',
@@ -178,9 +236,7 @@ def gen(rng, tier):
            'set 2 1 1 1', 'init 0', 'start 0', 'destroy 0']
     yield ['new 0 1 1 1 1', 'new 1 1 1 1 1', 'new 2 1 1 1 1', 'new 3 1 1 0 1', 'new 4 0 1 1 1', 'new 5 0 1 1 1', 'add 0 1 0', 'add 1 2 1',
            'add 1 3 1', 'add 0 4 1', 'add 0 5 1', 'init 0', 'start 0', 'stop 0', 'start 0', 'cleanup 0', 'destroy 0', 'destroy 5']
-    if tier == 'thorough':
-        for (lo, hi, ln) in EXH_SCOPES:
-            yield from gen_exhaustive(lo, hi, ln)
+    # (thorough: the exhaustive small-scope enumeration runs in plugin.check() -> run_exhaustive(), in parallel chunks)
     for _ in range(n):
         yield gen_case(rng)
     for _ in range(n // 2):
@@ -189,19 +245,154 @@ def gen(rng, tier):
         yield gen_forest(rng)
 
 
-EXH_SCOPES = [(1, 4, 4), (5, 5, 2)]   # (min modules, max modules, length of the call sequences)
 
 
 def extra_coverage():
     if not EXH['trees']:
         return {}
-    return {'exhaustive': True,
+    return {'main_scenarios': {'run': MAIN['run'], 'agree': MAIN['ok'], 'paths': dict(MAIN['paths']),
+                               'what': 'real tbox::main::Main() (run_in_frontend.cpp, ContextImp, Log, Args) with an Apps tree of probe '
+                                       'modules; hook trace compared with the model mainTrace; ContextImp::start() cannot fail in the '
+                                       'code, that branch is model-only; run_in_backend.cpp has the same sequencing and is not executed'},
+'exhaustive': True,
             'exhaustive_scope': 'every ordered tree shape x required/optional flag of every child x {ok, onInit fails, onStart fails} '
                                 'per module, x every sequence of root calls over {initialize,start,stop,cleanup} of the given length '
                                 '(all prefixes compared too), each followed by cleanup: ' +
                                 '; '.join('%d..%d modules with sequences of length %d' % sc for sc in EXH_SCOPES) +
-                                ' (%d trees, %d tree/sequence combinations); all modules named with config present'
-                                % (EXH['trees'], EXH['combos'])}
+                                ' (%d trees, %d tree/sequence combinations, %d op lines in %d chunks, %d diverging); '
+                                'all modules named with config present; run by plugin.run_exhaustive() outside the sampled cases'
+                                % (EXH['trees'], EXH['combos'], EXH['lines'], EXH['chunks'], len(EXH['bad']))}
+
+
+# ---- Main() scenarios (thorough tier): the real tbox::main::Main() of run_in_frontend.cpp with an Apps tree of
+# ---- probe modules, compared with the model's `mainTrace` (driver op `main <ctxInit> <ctxStart> <root>`)
+
+MAIN_MODULES = ['base', 'util', 'event', 'eventx', 'log', 'terminal', 'network', 'trace', 'coroutine', 'main']
+MAIN = {'run': 0, 'ok': 0, 'paths': {}}
+
+
+def main_sources():
+    import os
+    srcs = []
+    for m in MAIN_MODULES:
+        for root, ds, fs in os.walk(os.path.join(vlib.REPO, 'modules', m)):
+            if 'example' in root or '/test' in root:
+                continue
+            for f in fs:
+                if f.endswith('.cpp') and not f.endswith('_test.cpp'):
+                    srcs.append(os.path.relpath(os.path.join(root, f), vlib.REPO))
+    return sorted(srcs)
+
+
+def gen_main_scenario(rng, k):
+    n = rng.choice([2, 3, 4, 5, 7])
+    lines, root, ids = gen_tree(rng, n, p_fail=rng.choice([0.0, 0.15, 0.3]))
+    out = []
+    for l in lines:
+        w = l.split()
+        if w[0] == 'new':
+            w[3] = '1'                                   # config keys are created by fillDefaultConfig()
+            if int(w[1]) == root:
+                w[2], w[4], w[5] = '0', '1', '1'          # the Apps root is a base Module("")
+        out.append(' '.join(w))
+    if k % 5 == 1:                                        # everything fine: the run / stop-signal path
+        out = [' '.join(l.split()[:4] + ['1', '1']) if l.startswith('new') else l for l in out]
+    out.append('main %d 1 %d' % (0 if k % 7 == 3 else 1, root))
+    return out
+
+
+def run_main_scenarios(seed, count, extra=()):
+    """returns list of (ops, impl_line, model_line) that disagree"""
+    import os, random, tempfile
+    from concurrent.futures import ThreadPoolExecutor
+    exe, hlog = vlib.build_harness(ID, main_sources(), os.path.join(vlib.VERIF, 'props', ID, 'main_scenario.cpp'), 'asan',
+                                   out_name='mainscn')
+    if exe is None:
+        return [(['<build of props/C11/main_scenario.cpp>'], hlog[-1500:], 'builds')]
+    rng = random.Random('%s:main:%d' % (ID, seed))
+    cases = [list(e) for e in extra] + [gen_main_scenario(rng, k) for k in range(count)]
+    # keep only scenarios where every module hangs below the Apps root (an add refused for two unnamed siblings leaves a stray root)
+    model = vlib.run_driver_cases(EXE, dict(enumerate(cases)))
+    tmpd = tempfile.mkdtemp(prefix='C11-main-')
+
+    def one(i):
+        path = os.path.join(tmpd, '%d.ops' % i)
+        with open(path, 'w') as fh:
+            fh.write('\n'.join(cases[i]) + '\n')
+        rc, so, se = vlib.run_proc([exe], '', 60, env={'C11_SCENARIO': path})
+        lines = [l for l in so.splitlines() if l.startswith('P ') or l == 'bad-op']
+        if rc != 0:
+            lines.append('CRASH ' + vlib.classify_crash(rc, se))
+        return lines
+    with ThreadPoolExecutor(8) as ex:
+        impl = list(ex.map(one, range(len(cases))))
+    import shutil
+    shutil.rmtree(tmpd, ignore_errors=True)
+    bad = []
+    for i, ops in enumerate(cases):
+        ml = [l for l in model.get(i, []) if not l.startswith('B ')]
+        tags = [l for l in model.get(i, []) if l.startswith('B main-')]
+        m_last = ml[-1] if ml else '<none>'
+        stray = ',' in m_last.split('st=')[-1] or (m_last.split('st=')[-1].strip() not in ('-',))
+        if impl[i] == ['bad-op'] and (stray or m_last == 'bad-op'):
+            continue                                    # not a scenario (stray root): skipped on both sides
+        MAIN['run'] += 1
+        for t in tags:
+            MAIN['paths'][t[2:]] = MAIN['paths'].get(t[2:], 0) + 1
+        if impl[i] == [m_last]:
+            MAIN['ok'] += 1
+        else:
+            bad.append((ops, ' | '.join(impl[i]) or '<no output>', m_last))
+    return bad
+
+
+def check(tier, seed, replay):
+    import hashlib, json, os, time, types
+    t0 = time.time()
+    me = types.SimpleNamespace(**{k: v for k, v in globals().items() if k != 'check'})
+    MAIN.update({'run': 0, 'ok': 0, 'paths': {}})
+    bad = []
+    if replay:
+        ops = [l.strip() for l in open(replay) if l.strip() and not l.startswith('#') and not l.startswith('case ')]
+        if ops and ops[-1].startswith('main '):
+            bad = run_main_scenarios(seed, 0, extra=[ops])
+            for (o, il, ml) in bad:
+                print('VIOLATION property=%s replay=%s' % (ID, replay), flush=True)
+                vlib.log('  -> Main() scenario: impl=%r expected=%r' % (il, ml))
+            return 1 if bad else 0
+    elif tier == 'thorough':
+        ok, _ = vlib.lean_build([EXE])
+        bad = run_main_scenarios(seed, 60, extra=MAIN_FIXED)
+        run_exhaustive()
+        bad = [(o, il, ml, 'exhaustive enumeration') for (o, il, ml) in EXH['bad']] + [(o, il, ml, 'Main() scenario') for (o, il, ml) in bad]
+    rc = vlib.standard_check(me, tier, seed, replay)
+    for (o, il, ml, what) in bad[:4]:
+        fp = ('main-' if o[-1].startswith('main ') else 'exh-') + hashlib.sha1('\n'.join(o).encode()).hexdigest()[:10]
+        path = vlib.write_replay(ID, fp + '.ops', vlib.case_text(0, o) + '# %s\n# implementation: %s\n# model/spec   : %s\n'
+                                 % (what, il, ml))
+        print('VIOLATION property=%s replay=%s' % (ID, path), flush=True)
+        vlib.log('  -> %s: impl=%r expected=%r' % (what, il[:200], ml[:200]))
+    if tier == 'thorough' and not replay:
+        # the evidence written by standard_check() does not know about the two extra passes: add them
+        evp = os.path.join(vlib.VERIF, 'evidence', ID + '.json')
+        ev = json.load(open(evp))
+        ev['violations'] = ev.get('violations', 0) + min(len(bad), 4)
+        ev['wall_s'] = round(time.time() - t0, 2)
+        with open(evp + '.tmp', 'w') as fh:
+            json.dump(ev, fh, indent=1, sort_keys=True); fh.write('\n')
+        os.replace(evp + '.tmp', evp)
+    if bad:
+        rc = 1
+    return rc
+
+
+# DESIGN 7-5 inside Main(): "Apps init fail" and "Apps start fail" paths, the run path, "Context init fail"
+MAIN_FIXED = [
+    ['new 0 0 1 1 1', 'new 1 1 1 1 1', 'new 2 1 1 0 1', 'add 0 1 1', 'add 0 2 1', 'main 1 1 0'],
+    ['new 0 0 1 1 1', 'new 1 1 1 1 1', 'new 2 1 1 1 0', 'add 0 1 1', 'add 0 2 1', 'main 1 1 0'],
+    ['new 0 0 1 1 1', 'new 1 1 1 1 1', 'new 2 0 1 1 1', 'new 3 1 1 0 1', 'add 0 1 1', 'add 0 2 0', 'add 2 3 1', 'main 1 1 0'],
+    ['new 0 0 1 1 1', 'new 1 1 1 1 1', 'add 0 1 1', 'main 0 1 0'],
+]
 
 
 NT_TAGS = ('init-rollback', 'start-rollback', '-ok-optfail', 'cleanup-with-stop', 'destroy-emits')
@@ -223,6 +414,6 @@ LEVEL_TEXT = ('Lean 4 theorems over a hand-written model of Module (tree with pe
               "module's lifecycle automaton, is LIFO-nested, and is balanced after cleanup+destroy; the model is tied to module.cpp on every "
               'run by differential execution of generated trees and call sequences (ASan+UBSan build of the working tree)')
 LEVEL_NOTE = ('trusted: Lean kernel, hand-written model + differential tie (coverage bounded by the generator, measured in evidence); '
-              'hooks that re-enter the tree or throw, and Main() sequencing in run_in_frontend/backend.cpp, are not modelled')
+              'hooks that re-enter the tree or throw are not modelled; Main() sequencing is a small model (mainTrace) tied by scenario runs of the real Main() in the thorough tier')
 TECHNIQUE = 'Lean 4 structural-induction proofs over a module-tree model + model/implementation correspondence check'
 DESIGN_REF = 'DESIGN.md §6 C11, §7 row 5'
